@@ -65,6 +65,19 @@ def parseOp (line : String) : Option Op :=
         match mkView sorg sk su w h so spad 0, mkView sorg sk su w h so spad 2000000, mkView dorg dk du w h dof dpad 1000000 with
         | some s, some s2, some d =>
           let s2v := match rest with | x :: _ => ((words x).mapM String.toNat?).getD [] | [] => []
+          if alg == "imgeq" then
+            -- two images: rows padded to the alignment (so / dof are the alignments), second image is (w + arg) wide
+            let rowU (uu ww al : Nat) (org : String) : Nat := let A := al * (if isBits org then 8 else 1); if al = 0 then ww * uu else ((ww * uu + A - 1) / A) * A
+            -- image(w, h, alignment): allocate_ returns before setting _view when no byte is needed (w*h = 0 and alignment <= 1), the image then
+            -- reports 0x0 (finding C10-copy-of-wx0-image); flag bit 1 of pf: the tree keeps the requested dimensions (source-selected variant)
+            let keep := (pf.toNat?.getD 0) / 2 % 2 == 1
+            let dimsOf (ww hh al : Nat) : Nat × Nat := if ww * hh = 0 ∧ al ≤ 1 ∧ !keep then (0, 0) else (ww, hh)
+            let (w1, h1) := dimsOf w h so
+            let (w2, h2) := dimsOf (w + arg) h dof
+            let a : View := ⟨0, su, rowU su w so sorg, w1, h1⟩
+            let b : View := ⟨1000000, du, rowU du (w + arg) dof dorg, w2, h2⟩
+            if sv.length = w * h ∧ dv.length = (w + arg) * h then some ⟨alg, sorg, dorg, a, s2, b, arg, dr, sv, dv, s2v, sk, dk, pf.toNat?.getD 0⟩ else none
+          else
           if sv.length = w * h ∧ dv.length = w * h then some ⟨alg, sorg, dorg, s, s2, d, arg, dr, sv, dv, s2v, sk, dk, pf.toNat?.getD 0⟩ else none
         | _, _, _ => none
       | _, _, _, _, _ => none
@@ -103,6 +116,7 @@ def model (line : String) : String :=
       if o.dorg == "rgb8p" && (o.dk == "xstep" || o.dk == "trans" || o.dk == "flipx") && o.pf % 2 == 0 then "err:no-compile"
       else fin "" (implFill m0 o.d o.arg)
     | "equal" => fin (if implEqual m0 o.s o.d (pixEq o.dorg) then " eq=1" else " eq=0") m0
+    | "imgeq" => let e := implImageEq m0 o.s o.d (pixEq o.dorg); fin (if e then " eq=1 ne=0" else " eq=0 ne=1") m0
     | "foreach" | "foreachpos" =>
       -- for_each_pixel(_position): the functor sees the pixels in the traversal order of the code and adds `arg`
       let order := if o.alg == "foreach" then implFillAddrs o.d else specAddrs o.d
@@ -129,6 +143,7 @@ def judge (line obs : String) : String :=
         let R := o.range
         let frame := hw.find? (fun x => x.startsWith "frame=")
         let eqObs := hw.find? (fun x => x.startsWith "eq=")
+        let neObs := hw.find? (fun x => x.startsWith "ne=")
         let logObs := (hw.find? (fun x => x.startsWith "log=")).map (fun x => ((x.drop 4).toString.splitOn ",").filter (· ≠ ""))
         let n := o.d.w * o.d.h
         let expect : Option (List Nat × Option Bool × Option (List Nat)) :=
@@ -137,6 +152,7 @@ def judge (line obs : String) : String :=
           | "cconv" => some (if o.sorg == "gray8" then o.sv.map grayToRgb else o.sv, none, none)
           | "fill" => some (List.replicate n o.arg, none, none)
           | "equal" => some (o.dv, some ((o.sv.zip o.dv).all (fun p => pixEq o.dorg p.1 p.2)), none)
+          | "imgeq" => some (o.dv, some (o.arg == 0 && (o.sv.zip o.dv).all (fun p => pixEq o.dorg p.1 p.2)), none)
           | "foreach" | "foreachpos" => some (o.dv.map (fun v => (v + o.arg) % R), none, some o.dv)
           | "generate" => some ((List.range n).map (fun k => (o.arg + k) % R), none, none)
           | "tr1" | "trpos" => some (o.sv.map (fun v => (v * 3 + o.arg) % R), none, none)
@@ -149,6 +165,7 @@ def judge (line obs : String) : String :=
           else if hw.any (fun x => x.startsWith "srcframe") then "fail source-unmodified"
           else if got ≠ vals then "fail equals-per-pixel-loop"
           else if eq.isSome ∧ eqObs ≠ eq.map (fun b => if b then "eq=1" else "eq=0") then "fail equal-iff-all-pixels-equal"
+          else if o.alg == "imgeq" ∧ (neObs ≠ eq.map (fun b => if b then "ne=0" else "ne=1") ∨ hw.any (fun x => x.startsWith "self=")) then "fail image-inequality-is-negation"
           else if log.isSome ∧ logObs ≠ log.map (fun l => l.map toString) then "fail row-major-call-order"
           else "ok"
     | _ => "fail not-an-observation:" ++ (obs.take 60).toString
